@@ -136,6 +136,8 @@ pub struct Ev {
     pub image_after: Option<(String, Trace)>,
     /// customer stage image right before the step (close events)
     pub image_before: Option<(String, Trace)>,
+    /// for proof messages: the challenge the merchant derived when it verified them (hook)
+    pub challenge: Option<Scalar>,
 }
 
 pub struct ChanResult {
@@ -319,6 +321,7 @@ struct Chan {
     skip_pay: Option<usize>,
     closing: Option<Trace>,
     close_stage: String,
+    last_proof_event: Option<usize>,
     payments_completed: usize,
     last_fault: String,
     last_outcome: String,
@@ -392,6 +395,7 @@ impl<'a> World<'a> {
                 skip_pay: None,
                 closing: None,
                 close_stage: String::new(),
+                last_proof_event: None,
                 payments_completed: 0,
                 last_fault: "none".into(),
                 last_outcome: "none".into(),
@@ -461,6 +465,7 @@ impl<'a> World<'a> {
             honest,
             image_after: None,
             image_before: None,
+            challenge: None,
         });
         self.history.len() - 1
     }
@@ -786,6 +791,7 @@ impl<'a> World<'a> {
         let img = self.chans[ci].stage.trace();
         let e = self.log(ci, -1, "establish-proof", Dir::C2M, Some(pt), "sent", true);
         self.history[e].image_after = img.map(|t| ("requested".to_string(), t));
+        self.chans[ci].last_proof_event = Some(e);
         // keep the object for in-process hand-over
         self.chans[ci].pend_est = Some(proof);
         self.check_ledger(ci, "Requested::new");
@@ -821,7 +827,11 @@ impl<'a> World<'a> {
         let cb = za::CustomerBalance::try_new(c.plan.cust_bal).unwrap();
         let mb = za::MerchantBalance::try_new(c.plan.merch_bal).unwrap();
         let mut rng = self.rng(ci, -1, "merchant/initialize");
-        let r = m.cfg.initialize(&mut rng, &cid, cb, mb, proof, &ctx_for(self.plan.seed, ci, -1));
+        let ctx = ctx_for(self.plan.seed, ci, -1);
+        let (r, ch, _) = crate::forge::with_recording(|| m.cfg.initialize(&mut rng, &cid, cb, mb, proof, &ctx));
+        if let Some(e) = self.chans[ci].last_proof_event {
+            self.history[e].challenge = ch;
+        }
         match r {
             Some((cs, vbs)) => {
                 let t = atoms::trace(&cs);
@@ -1230,6 +1240,7 @@ impl<'a> World<'a> {
                 self.chans[ci].pend_pay = Some((sm.nonce, sm.pay_proof));
                 self.chans[ci].last_outcome = "started".into();
                 let e = self.log(ci, pay as i32, "start-message", Dir::C2M, Some(mt), "sent", true);
+                self.chans[ci].last_proof_event = Some(e);
                 let img = self.chans[ci].stage.trace();
                 self.history[e].image_after = img.map(|t| ("started".to_string(), t));
                 self.history[e].image_before = before_t.map(|t| ("ready".to_string(), t));
@@ -1301,7 +1312,12 @@ impl<'a> World<'a> {
             }
         };
         let mut rng = self.rng(ci, pay as i32, "merchant/allow_payment");
-        match m.cfg.allow_payment(&mut rng, amt, &nonce, proof, &ctx_for(self.plan.seed, ci, pay as i32)) {
+        let ctx = ctx_for(self.plan.seed, ci, pay as i32);
+        let (r, ch, _) = crate::forge::with_recording(|| m.cfg.allow_payment(&mut rng, amt, &nonce, proof, &ctx));
+        if let Some(e) = self.chans[ci].last_proof_event {
+            self.history[e].challenge = ch;
+        }
+        match r {
             Some((unrev, cs)) => {
                 let t = atoms::trace(&cs);
                 self.replies.push((ci, pay as i32, "cs", t.bytes.clone()));
